@@ -131,11 +131,16 @@ MC_LREPCHAIN = dict(MaxDepth=3, MaxStack=1, MatcherKinds=S("none", "eq"), Matche
 MC_LREPJOIN = dict(MaxDepth=3, MaxBinNest=1, MatcherKinds=S("none", "eq"), MatcherKindsB=S("none"), Leaves=S("sel"), UnFns=S("lrepdel"),
                    AggOps=S("sum"), AggLabelSets=S(), ArithOps=S("*"), CmpOps=S(), SetOps=S("and"), MatchSets=S(S("a")), GroupIncs=S(),
                    DBSeries=1, DBA=S("x", "y"), DBB=S("x"), DBC=S(), DBVals=S(1))
+# exhaustive: group_left / group_right copying back TWO labels that the "many" side removed together
+# (without(a,b), {a="",b=""}), matched with on() / on(c) / ignoring(c) (depth 2, one binary node)
+MC_GRP2 = dict(MaxDepth=2, MaxBinNest=1, MatcherKinds=S("none", "empty"), MatcherKindsB=S("none", "empty"), Leaves=S("sel"), UnFns=S(),
+               AggOps=S("sum"), AggLabelSets=S(S("a", "b")), ArithOps=S("*"), CmpOps=S(), SetOps=S(), MatchSets=S(S(), S("c")),
+               GroupIncs=S(S("a", "b")), DBSeries=1, DBA=S("x"), DBB=S("x"), DBC=S("x"), DBVals=S(1))
 # simulation over the full vocabulary
 SIM_FULL = dict(MaxDepth=3, MaxBinNest=2, MaxStack=3, MatcherKinds=ALL_MATCH, MatcherKindsB=S("none", "eq", "empty"), Leaves=S("sel", "seloff", "num", "time", "vec"),
                 UnFns=ALL_UN, AggOps=ALL_AGG, AggLabelSets=ALL_AGGSETS, IgnEmpty=True, DupLabels=True,
                 ArithOps=S("+", "-", "*"), CmpOps=ALL_CMP, SetOps=S("and", "or", "unless"),
-                MatchSets=S(S(), S("a"), S("b"), S("a", "b")), GroupIncs=S(S(), S("b"), S("c")),
+                MatchSets=S(S(), S("a"), S("b"), S("a", "b")), GroupIncs=S(S(), S("b"), S("c"), S("a", "b")),
                 DBSeries=1, DBA=S("x"), DBB=S(), DBC=S(), DBVals=S(1))
 
 
@@ -227,13 +232,13 @@ def tiers(thorough):
                 ("unary2", dict(MC_UNARY, MaxDepth=2, DBVals=S(1), DBC=S(), DupLabels=False, UnFns=UN_P1, AggOps=S("sum", "count", "topk", "cv")), 5000),
                 ("wide1", t_wide, 6000), ("nest", MC_NEST, 2000), ("nestbin", MC_NESTBIN, 2000),
                 ("cond", dict(MC_COND, MaxStack=3), 3000), ("absent", MC_ABSENT, 2000),
-                ("grpnest", dict(MC_GRPNEST, GroupIncs=S(S("b"), S("c")), DBA=S("x", "y")), 3000), ("lrepchain", MC_LREPCHAIN, 3000), ("lrepjoin", MC_LREPJOIN, 2000)], 250, 15000
+                ("grpnest", dict(MC_GRPNEST, GroupIncs=S(S("b"), S("c")), DBA=S("x", "y")), 3000), ("lrepchain", MC_LREPCHAIN, 3000), ("lrepjoin", MC_LREPJOIN, 2000), ("grp2", MC_GRP2, 3000)], 250, 15000
     q_join = dict(MC_JOIN, MatcherKinds=S("none", "eq"), AggLabelSets=S(S("a")))
     q_wide = dict(MC_WIDE1, MatcherKinds=S("none", "eq", "empty", "reopt"), MatcherKindsB=S("none", "empty"), CmpOps=S(">="), ArithOps=S("*"),
                   MatchSets=S(S(), S("a")), GroupIncs=S(S(), S("b")), DBC=S(), DBVals=S(1))
     return [("join", q_join, 800), ("static", MC_STATIC, 800), ("unary", dict(MC_UNARY, DBVals=S(1)), 1200), ("wide1", q_wide, 1500),
             ("nest", MC_NEST, 1100), ("nestbin", MC_NESTBIN, 500), ("cond", MC_COND, 700), ("absent", MC_ABSENT, 500),
-            ("grpnest", MC_GRPNEST, 500), ("lrepchain", MC_LREPCHAIN, 500), ("lrepjoin", MC_LREPJOIN, 500)], 25, 1200
+            ("grpnest", MC_GRPNEST, 500), ("lrepchain", MC_LREPCHAIN, 500), ("lrepjoin", MC_LREPJOIN, 500), ("grp2", MC_GRP2, 600)], 25, 1200
 
 
 def skey(e, top=True):
